@@ -247,7 +247,7 @@ the rows in `B` contribute their epoch-`b` share, the others their epoch-`a` sha
 with any reconstruction vector `c` yields exactly `secret_a + Σ_{i∈B} cᵢ · (M (r_b − r_a))ᵢ`, hence
 the secret iff that term vanishes. -/
 theorem mixed_epoch_exact (M : Matrix ρ δ F) (z : δ) (ra rb : δ → F) (c : ρ → F)
-    (hc : c ᵥ* M = Pi.single z 1) (B : Finset ρ) [DecidablePred (· ∈ B)] :
+    (hc : c ᵥ* M = Pi.single z 1) [DecidableEq ρ] (B : Finset ρ) :
     (c ⬝ᵥ fun i => if i ∈ B then (M *ᵥ rb) i else (M *ᵥ ra) i) =
         ra z + ∑ i ∈ B, c i * (M *ᵥ (rb - ra)) i ∧
     ((c ⬝ᵥ fun i => if i ∈ B then (M *ᵥ rb) i else (M *ᵥ ra) i) = ra z ↔
@@ -263,14 +263,14 @@ theorem mixed_epoch_exact (M : Matrix ρ δ F) (z : δ) (ra rb : δ → F) (c : 
     rw [hsplit, dotProduct_add, hrec]
     congr 1
     simp only [dotProduct, mul_ite, mul_zero]
-    rw [Finset.sum_ite_mem, Finset.univ_inter]
+    rw [Finset.sum_ite_mem Finset.univ B (fun i => c i * (M *ᵥ (rb - ra)) i), Finset.univ_inter]
   exact ⟨hmain, by rw [hmain]; exact add_eq_left⟩
 
 /-- the probabilistic half of the mixed-epoch clause — for a minimal qualified set and `∅ ≠ B ⊊ S`
 the correction term is a non-zero linear form in the fresh randomness `r_b − r_a`, hence vanishes
 with probability `1/|F|` — is outside the model (no probability space is modelled); the driver
 checks the non-zero linear form (`Epoch.weightOn`) and the inequality on every emitted pair. -/
-def mixed_epoch_negligible_statement (F : Type) [Field F] [Fintype F] : Prop :=
+def mixed_epoch_negligible_statement (F : Type) [Field F] [Fintype F] [DecidableEq F] : Prop :=
   ∀ (n : ℕ) (w : Fin n → F), w ≠ 0 →
     (Finset.univ.filter fun x : Fin n → F => ∑ k, w k * x k = 0).card * Fintype.card F
       = Fintype.card (Fin n → F)
@@ -327,8 +327,8 @@ example : ¬ ∃ c : List (ZMod 7), (run opsEx e0ex).IsReconVector [7] c := by
   rw [h1] at hlen
   match c, hlen with
   | [x], _ =>
-    have := congrArg (fun l => (l.getD 0 0, l.getD 1 0)) hc
-    simp [mulVec, transposeN, dot, Vss.e0] at this
+    have key : ∀ y : ZMod 7, LinAlg.mulVec (transposeN [[1, 1]] 2) [y] ≠ Vss.e0 2 := by decide
+    exact key x hc
 
 /-- mixing epochs: rows of holders 1, 2 of the (2,3) programme, `c = (2, −1)`; holder 1 uses the
 refreshed share (`r_b = (3, 6)`), holder 2 the old one (`r_a = (3, 5)`): the result is `3 + 2 ≠ 3` -/
